@@ -292,9 +292,15 @@ func runRace(x *verifkit.Ctx, c raceCase) (blocked, flaggedHeld bool, err error)
 	return blocked, flaggedHeld, nil
 }
 
-func TestVerifC14Race(t *testing.T) {
-	verifkit.Run(t, verifkit.Spec[raceCase]{
-		Property: "C14", Unit: "storage_interleavings", CrashReplay: true,
+func TestVerifC14Race(t *testing.T) { verifkit.Run(t, raceSpec("C14")) }
+
+// C07 quantifies over retention runs racing with queries, writers and forced cleanup: the same schedules decide its
+// clause "data younger than the TTL is never deleted or hidden by retention" (a young segment stays listed and on disk).
+func TestVerifC07Race(t *testing.T) { verifkit.Run(t, raceSpec("C07")) }
+
+func raceSpec(pid string) verifkit.Spec[raceCase] {
+	return verifkit.Spec[raceCase]{
+		Property: pid, Unit: "storage_interleavings", CrashReplay: true,
 		Rule: "2..4 idle-closed day segments (TTL 3 days, the clock advanced 0..8 days so that none, some or all are expired); goroutine A (a writer) cold-reopens a " +
 			"generated segment and is parked inside the table creator, i.e. under the segment's lock with the reference not yet counted; goroutine B runs a generated " +
 			"housekeeping task (retention run, expired-range probe, deletion by suffix, forced deletion of the oldest) and is left waiting where it needs that lock; " +
@@ -323,5 +329,5 @@ func TestVerifC14Race(t *testing.T) {
 			return nil
 		},
 		MinLabelFrac: map[string]float64{"housekeeping waited for the parked reopen": 0.1},
-	})
+	}
 }
